@@ -50,10 +50,12 @@ def plan(tier, seed):
     if tier == "quick":
         combos = [c for c in combos if c in {(0, 0, 0), (1, 1, 1), (2, 2, 2), (1, 2, 0), (2, 1, 2), (0, 2, 1), (2, 0, 1), (1, 0, 2)}]
     ob = "(a.b).c == a.(b.c) == merge(a,b,c), raising alike; operands unchanged"
+    QUICK8 = {(0, 0, 0), (1, 1, 1), (2, 2, 2), (1, 2, 0), (2, 1, 2), (0, 2, 1), (2, 0, 1), (1, 0, 2)}
     for ka, kb, kc in combos:
-        if tier == "quick":  # atomic+nested and list dimensions separately (fields merge independently)
-            parts.append(P("assoc", {"ka": ka, "kb": kb, "kc": kc, "fields": "in"}, ob, 3))
-        else:
+        # atomic+nested and list dimensions separately (fields merge independently); thorough: all 27 kind
+        # combinations, and the three dimensions jointly for the 8 combinations of the quick tier
+        parts.append(P("assoc", {"ka": ka, "kb": kb, "kc": kc, "fields": "in"}, ob, 3))
+        if tier != "quick" and (ka, kb, kc) in QUICK8:
             parts.append(P("assoc", {"ka": ka, "kb": kb, "kc": kc, "fields": "iln"}, ob, 3))
     parts.append(P("assoc", {"ka": 0, "kb": 0, "kc": 0, "fields": "l"}, ob + " (lists)", 2))
     parts.append(P("assoc", {"ka": 0, "kb": 0, "kc": 0, "fields": "il"}, ob + " (atomic+lists)", 2))
